@@ -29,9 +29,15 @@ impl WaitSlot {
         self.thread
             .set(thread::current())
             .expect("scheduler wait thread registered more than once");
+        #[cfg(feature = "verif-hooks")]
+        crate::verif::rt::register_waiter(self as *const Self as usize);
     }
 
     pub(super) fn notify(&self) {
+        #[cfg(feature = "verif-hooks")]
+        crate::verif::rt::pt1("notify", self as *const Self as usize);
+        #[cfg(feature = "verif-hooks")]
+        crate::verif::rt::unpark(self as *const Self as usize);
         if let Some(thread) = self.thread.get() {
             thread.unpark();
         }
@@ -42,13 +48,23 @@ impl WaitSlot {
     /// `Thread::unpark` publishes a token even when it races between the second predicate check
     /// and `park_timeout`, closing the usual check/park lost-wakeup window.
     pub(super) fn wait_while(&self, timeout: Duration, mut blocked: impl FnMut() -> bool) {
+        #[cfg(feature = "verif-hooks")]
+        crate::verif::rt::pt1("wait_check1", self as *const Self as usize);
         if !blocked() {
             return;
         }
 
         // Most scheduler stalls close within one worker timeslice.
         thread::yield_now();
+        #[cfg(feature = "verif-hooks")]
+        crate::verif::rt::pt1("wait_check2", self as *const Self as usize);
         if blocked() {
+            #[cfg(feature = "verif-hooks")]
+            crate::verif::rt::pt1("wait_park", self as *const Self as usize);
+            #[cfg(feature = "verif-hooks")]
+            if crate::verif::rt::park(self as *const Self as usize) {
+                return;
+            }
             thread::park_timeout(timeout);
         }
     }
